@@ -149,6 +149,14 @@ func refBody(p pack.Pack, textRecs []ref.TextRec) []byte {
 		}
 		if x.Uuid != "" {
 			put("_uuid_", x.Uuid)
+		} else {
+			// no uuid: the attribute is absent, also when an earlier send of the same object had one (F50)
+			for i := range attrs {
+				if attrs[i].K == "_uuid_" {
+					attrs = append(attrs[:i], attrs[i+1:]...)
+					break
+				}
+			}
 		}
 		esc := "false"
 		if x.Escalation {
